@@ -36,6 +36,7 @@ func TestVerifC14(t *testing.T) {
 	}
 
 	p := &c14Parent{t: t, root: t.TempDir()}
+	p.canImm = vc14.CanImmutable(p.root)
 	defer p.close()
 	vutil.Main(t, p.gen, p.run)
 }
@@ -132,14 +133,14 @@ func c14Child(f []string) []string {
 
 		return []string{"ok"}
 	case "save":
-		return c14Save(f[1], f[2], f[3])
+		return c14Save(f[1], f[2], f[3], f[4])
 	default:
 		panic("unknown command " + f[0])
 	}
 }
 
 // c14Save performs one real save.  Answer: committed newLen finalOK oldSum newSum.
-func c14Save(variant, sizeS, seedS string) []string {
+func c14Save(variant, sizeS, seedS, probe string) []string {
 	size, _ := strconv.Atoi(sizeS)
 	seed, _ := strconv.ParseUint(seedS, 10, 64)
 	dest := c14c.dest
@@ -152,7 +153,7 @@ func c14Save(variant, sizeS, seedS string) []string {
 	switch variant {
 	case "write":
 		config.UserRules = c14Rules(size, seed)
-		vc14.Window(func() { err = config.write(nil) })
+		vc14.WithFault(probe, dest, func() { vc14.Window(func() { err = config.write(nil) }) })
 		expected = c14Encode()
 		committed = err == nil
 	case "upgrade":
@@ -167,7 +168,7 @@ func c14Save(variant, sizeS, seedS string) []string {
 			panic(fmt.Sprintf("harness: old configuration does not migrate: %v %v", upgraded, err))
 		}
 		config.fileData = nil
-		vc14.Window(func() { err = parseConfig() })
+		vc14.WithFault(probe, dest, func() { vc14.Window(func() { err = parseConfig() }) })
 		config.fileData = nil
 		// parseConfig validates after writing; the save itself happened when the
 		// file is no longer the old one.
@@ -178,6 +179,11 @@ func c14Save(variant, sizeS, seedS string) []string {
 
 	after, rerr := os.ReadFile(dest)
 	finalOK := rerr == nil && bytes.Equal(after, expected)
+	if probe == "faildir" {
+		// The save cannot succeed; it must say so and leave the file alone.
+		committed = false
+		finalOK = err != nil && vc14.FileSum(dest) == oldSum
+	}
 
 	return []string{vutil.B(committed), strconv.Itoa(len(after)), vutil.B(finalOK), oldSum, vc14.FileSum(dest)}
 }
@@ -191,6 +197,8 @@ type c14Parent struct {
 	blk   int
 	w, tm string
 	dest  string
+
+	canImm bool
 }
 
 func (p *c14Parent) close() {
@@ -198,6 +206,7 @@ func (p *c14Parent) close() {
 		p.child.Stop()
 	}
 	_ = os.RemoveAll(c14ShmRoot())
+	vc14.ClearImmutable(p.root)
 }
 
 func c14ShmRoot() string { return "/dev/shm/verif-c14-home-" + strconv.Itoa(os.Getpid()) }
@@ -241,15 +250,23 @@ func (p *c14Parent) gen(r *rand.Rand, emit vutil.Emit) {
 		for s := 0; s < saves; s++ {
 			size := c14Size(r)
 			sz, sd := strconv.Itoa(size), strconv.FormatUint(r.Uint64N(1<<40), 10)
+			fault := ""
+			switch f := r.IntN(16); {
+			case f == 0 && p.canImm:
+				fault = "faildir"
+			case f == 1:
+				fault = "notmp"
+			}
+			probe := vc14.Probe(mode, fault)
 			if r.IntN(5) == 0 {
 				if size > 4<<20 {
 					sz = strconv.Itoa(4 << 20)
 				}
 				ver := strconv.Itoa(r.IntN(int(configmigrate.LastSchemaVersion)))
 				emit("C14.put", vutil.Hex(c14DestRel), sz, sd, ver)
-				emit("C14.save", "upgrade", sz, sd, "1", "0")
+				emit("C14.save", "upgrade", sz, sd, vutil.B(fault != "faildir"), "0", probe)
 			} else {
-				emit("C14.save", "write", sz, sd, "1", "0")
+				emit("C14.save", "write", sz, sd, vutil.B(fault != "faildir"), "0", probe)
 			}
 		}
 	}
@@ -286,7 +303,7 @@ func (p *c14Parent) run(f []string) []string {
 		return resp
 	case "C14.save":
 		rd := vc14.StartReader(p.dest)
-		resp, events, err := p.child.Do("save", f[1], f[2], f[3])
+		resp, events, err := p.child.Do("save", f[1], f[2], f[3], f[6])
 		if err != nil || len(resp) != 5 {
 			rd.Stop("", "")
 			if err != nil {
